@@ -552,8 +552,15 @@ class PipeGen:
                         on.append(nm)
                         seen_conds.add(("str", nm))
                     continue
-                l = ["col", self.pick([r for r, _ in lsc.by_fam[f] if "v" in r] or [r for r, _ in lsc.by_fam[f]])]
-                r = ["col", self.pick([r for r, _ in rsc.by_fam[f] if "v" in r] or [r for r, _ in rsc.by_fam[f]])]
+                fl = fr = f
+                if f in ("int", "float") and self.chance(2):
+                    # an Int key on one side and a Float key on the other (the common type is Float)
+                    other = "float" if f == "int" else "int"
+                    if rsc.by_fam[other]:
+                        fr = other
+                        self.classes.add("join_int_float_key")
+                l = ["col", self.pick([r for r, _ in lsc.by_fam[fl] if "v" in r] or [r for r, _ in lsc.by_fam[fl]])]
+                r = ["col", self.pick([r for r, _ in rsc.by_fam[fr] if "v" in r] or [r for r, _ in rsc.by_fam[fr]])]
                 # C.x is only unambiguous if the name exists on one side only
                 for side in (l, r):
                     if "c" in side[1]:
